@@ -75,9 +75,10 @@ def s_thread(draw, tid):
 def s_case(draw):
     n = draw(st.integers(2, 4))
     threads = [draw(s_thread(i)) for i in range(n)]
-    fault = draw(st.one_of(st.none(), st.none(), st.integers(0, 25)))
+    fault = draw(st.one_of(st.none(), st.none(), st.integers(0, 25), st.integers(0, 60)))
     schedule = draw(st.lists(st.integers(0, 3), max_size=40))
     return {"threads": threads, "fault": fault, "schedule": schedule, "fault_base": draw(st.booleans()),
+            "fault_len": draw(st.sampled_from([1, 1, 1, 2, 3])),      # how many consecutive calls on the target raise
             "scratch_tags": draw(st.booleans())}
 
 
@@ -114,7 +115,7 @@ def execute(spec, schedule=None):
                 calls[0] += 1
                 holder = sem.holder
                 log.append((t.tid if t else None, name, a, n, sem.count, holder.tid if holder else None))
-                if spec["fault"] is not None and n == spec["fault"]:
+                if spec["fault"] is not None and spec["fault"] <= n < spec["fault"] + spec.get("fault_len", 1):
                     raise (Interrupt if spec.get("fault_base") else Fault)("injected at call %d (%s)" % (n, name))
                 return attr(*a, **kw)
             return call
@@ -222,6 +223,13 @@ def execute(spec, schedule=None):
         j = i
         names = []
         while j < len(seq) and seq[j][0] == tid:
+            if seq[j][1] == "startTest" and len(names) != 1:
+                # a block cut short by a raising target is followed directly by the same thread's next block,
+                # which began with the preceding time() call
+                if names and names[-1] == "time" and len(names) > 1:
+                    names.pop()
+                    j -= 1
+                    break
             names.append(seq[j][1])
             j += 1
             if names[-1] == "stopTest":
@@ -231,7 +239,7 @@ def execute(spec, schedule=None):
         has_fault = fault_hit and any(e[3] == spec["fault"] for e in blk) or (fault_hit and j < len(seq) and False)
         shape = [e[1] for e in blk]
         outs = [e for e in blk if e[1] in OUTCOMES]
-        faulted_here = fault_hit and any(e[3] == spec["fault"] for e in blk)
+        faulted_here = fault_hit and any(spec["fault"] <= e[3] < spec["fault"] + spec.get("fault_len", 1) for e in blk)
         ok_shape = (len(shape) >= 5 and shape[0] == "time" and shape[1] == "startTest" and shape[2] == "time"
                     and all(s == "tags" for s in shape[3:-2]) and shape[-2] in OUTCOMES and shape[-1] == "stopTest")
         if not ok_shape and not faulted_here:
@@ -254,9 +262,16 @@ def execute(spec, schedule=None):
             got_ids = [t.id() for t, b in mine]
             want_ids = [r["test"].id() for r in want]
             if fault_hit:
-                # allow tests hit by the fault to be absent
+                # tests whose own block was hit by the fault may be absent or truncated; every other test of the thread
+                # must still arrive, once, in order
                 if not all(g in [r["test"].id() for r in rep] for g in got_ids) or len(set(got_ids)) != len(got_ids):
                     vs.append(V("exactly-once", "duplicate-or-foreign", "thread %d: target saw %r" % (tid, got_ids)))
+                    continue
+                faulted_ids = {r["test"].id() for r in rep if r.get("faulted")}
+                got_clean = [g for g in got_ids if g not in faulted_ids]
+                if got_clean != want_ids:
+                    vs.append(V("exactly-once", "lost-after-a-fault", "thread %d reported %r (besides the tests the fault struck: %r), target saw %r; faults delivered %r" % (
+                        tid, want_ids, sorted(faulted_ids), got_clean, faults_seen)))
                 continue
             if got_ids != want_ids:
                 vs.append(V("exactly-once", "missing-or-reordered", "thread %d reported %r, target saw %r" % (tid, want_ids, got_ids)))
@@ -346,10 +361,29 @@ def custom_dfs(ctx):
     return out
 
 
+def _enum_restart_faults():
+    """A forwarder that buffered a run-level tag, is told to start another run, and goes on reporting - with the
+    target raising at every possible call in turn (serial schedule and one alternating schedule)."""
+    t0 = [{"op": "startTestRun"}, {"op": "tags", "new": ["run1"], "gone": []},
+          {"op": "time", "t": 0}, {"op": "startTest", "k": 0}, {"op": "time", "t": 10}, {"op": "outcome", "kind": "success"}, {"op": "stopTest"},
+          {"op": "startTestRun"},
+          {"op": "time", "t": 20}, {"op": "startTest", "k": 1}, {"op": "tags", "new": ["t"], "gone": []}, {"op": "time", "t": 30},
+          {"op": "outcome", "kind": "failure"}, {"op": "stopTest"}, {"op": "stopTestRun"}]
+    t1 = [{"op": "time", "t": 5}, {"op": "startTest", "k": 0}, {"op": "time", "t": 6}, {"op": "outcome", "kind": "skip"}, {"op": "stopTest"}]
+    for fault in [None] + list(range(0, 16)):
+        for base in (False, True):
+            for schedule in ([], [1, 0] * 12):
+                for flen in (1, 2):
+                    yield {"threads": [t0, t1], "fault": fault, "fault_base": base, "fault_len": flen, "schedule": schedule, "scratch_tags": False}
+
+
 def subchecks(tier):
     q = tier == "quick"
     return [
         Sub("random_schedules", run_case, s_case(), 2500 if q else 40000),
+        Sub("restart_with_faults", run_case, enum=_enum_restart_faults, enum_complete=True,
+            note="a forwarder with a buffered run-level tag starts another run; the target raises at each of its first 16 calls "
+                 "in turn (1 or 2 calls in a row, Exception or BaseException, 2 schedules)"),
         Sub("bounded_preemption_dfs", run_case, custom=custom_dfs,
             note="all schedules with <= k pre-emptions (k=1 for 2 threads x 1 test in quick; k<=2 up to 3x2 in thorough)"),
     ]
